@@ -196,7 +196,7 @@ uint32_t qhashfnv1_32(const void *data, size_t nbytes) {
     unsigned char *dp;
     uint32_t h = 0x811C9DC5;
 
-    for (dp = (unsigned char *) data; *dp && nbytes > 0; dp++, nbytes--) {
+    for (dp = (unsigned char *) data; nbytes > 0; dp++, nbytes--) {
 #ifdef __GNUC__
         h += (h<<1) + (h<<4) + (h<<7) + (h<<8) + (h<<24);
 #else
@@ -227,7 +227,7 @@ uint64_t qhashfnv1_64(const void *data, size_t nbytes) {
     unsigned char *dp;
     uint64_t h = 0xCBF29CE484222325ULL;
 
-    for (dp = (unsigned char *) data; *dp && nbytes > 0; dp++, nbytes--) {
+    for (dp = (unsigned char *) data; nbytes > 0; dp++, nbytes--) {
 #ifdef __GNUC__
         h += (h << 1) + (h << 4) + (h << 5) +
         (h << 7) + (h << 8) + (h << 40);
